@@ -99,6 +99,8 @@ struct Scenario {
     cls: u64,
     only_baked: bool,
     use_iter: bool,
+    /// Some(k): issue the query once before and drop its result objects after k elements
+    abandon_after: Option<usize>,
     merges: Vec<(u64, u64)>,
 }
 
@@ -131,7 +133,7 @@ fn gen_scenario(rng: &mut Rng, small: bool) -> Scenario {
             }
         }
     }
-    Scenario { merges, shards, stored, foreign, owned_ids, owned, cls: if rng.chance(0.15) { nclasses as u64 } else { rng.usize(nclasses) as u64 }, only_baked: rng.chance(0.4), use_iter: rng.chance(0.5) }
+    Scenario { merges, shards, stored, foreign, owned_ids, owned, cls: if rng.chance(0.15) { nclasses as u64 } else { rng.usize(nclasses) as u64 }, only_baked: rng.chance(0.4), use_iter: rng.chance(0.5), abandon_after: if rng.chance(0.15) { Some(rng.usize(4)) } else { None } }
 }
 
 fn store_snaps(st: &Store, shards: usize) -> Vec<Snap> {
@@ -152,7 +154,7 @@ struct RunOut {
     store_after: Vec<Snap>,
 }
 
-fn run_query(env: &Env, sc: &Scenario) -> (RunOut, Vec<Snap>, Vec<Snap>) {
+fn run_query(env: &Env, sc: &Scenario, allow_abandon: bool) -> (RunOut, Vec<Snap>, Vec<Snap>) {
     let mut st: Store = TrackStoreBuilder::new(sc.shards).default_attributes(WAttrs::new(1, 8, env.plan.clone())).metric(WMetric { state: 0, plan: env.plan.clone() }).notifier(env.notif.clone()).build();
     for s in &sc.stored {
         st.add_track(lib_track(env, s)).unwrap();
@@ -163,6 +165,19 @@ fn run_query(env: &Env, sc: &Scenario) -> (RunOut, Vec<Snap>, Vec<Snap>) {
     }
     let before = store_snaps(&st, sc.shards);
     let cand_snaps: Vec<Snap> = if sc.owned { before.iter().filter(|s| sc.owned_ids.contains(&s.id)).cloned().collect() } else { sc.foreign.iter().map(|s| snap(&lib_track(env, s))).collect() };
+    // now and then the same query is first issued and ABANDONED: its result objects are dropped after a few elements (or
+    // untouched) while workers may still be answering; the store and the following query must not notice
+    if let (Some(k), true) = (sc.abandon_after, allow_abandon) {
+        let (ok_a, err_a) = if sc.owned { st.owned_track_distances(&sc.owned_ids, sc.cls, sc.only_baked) } else { st.foreign_track_distances(sc.foreign.iter().map(|s| lib_track(env, s)).collect(), sc.cls, sc.only_baked) };
+        let mut it = ok_a.into_iter();
+        for _ in 0..k {
+            if it.next().is_none() {
+                break;
+            }
+        }
+        drop(it);
+        drop(err_a);
+    }
     let (ok_h, err_h) = if sc.owned { st.owned_track_distances(&sc.owned_ids, sc.cls, sc.only_baked) } else { st.foreign_track_distances(sc.foreign.iter().map(|s| lib_track(env, s)).collect(), sc.cls, sc.only_baked) };
     let oks: Vec<_> = if sc.use_iter { ok_h.into_iter().collect() } else { ok_h.all() };
     let errs: Vec<_> = if sc.use_iter { err_h.into_iter().collect() } else { err_h.all() };
@@ -212,7 +227,7 @@ fn judge(rep: &mut Report, idx: u64, sc: &Scenario, out: &RunOut, before: &[Snap
 fn main() {
     let cli = Cli::parse();
     let mut rep = Report::new("C10", &cli);
-    rep.note("rule", json!("scenario = store of 0..12 tracks (0..3 observations in 0..2 classes, mixed compatibility classes and statuses) on 1..4 shards + candidate batch of 1..4 tracks (foreign, some with ids that also exist in the store; or owned ids incl. ids that are not stored), feature class possibly absent, both only_baked settings, results read through all() or into_iter(). Reference: enumeration over the pre-query store contents (all stored tracks != candidate, compatible, Ready when only_baked, one element per observation pair with a metric value; (from,to,class) errors when a class is missing). Schedules: small scenarios (<= 3 shards x <= 2 candidates) are driven through EVERY order of worker commands (and for owned queries every position of the caller's step) by gate scripts at the guarded schedule points; larger ones run under seeded random delay plans. Non-trivial: reference multiset has >= 2 results from >= 2 shards; distinct by scenario hash."));
+    rep.note("rule", json!("scenario = store of 0..12 tracks (0..3 observations in 0..2 classes, mixed compatibility classes and statuses) on 1..4 shards + candidate batch of 1..4 tracks (foreign, some with ids that also exist in the store; or owned ids incl. ids that are not stored), feature class possibly absent, both only_baked settings, results read through all() or into_iter(); in 15% of the scenarios the same query is first issued and abandoned (result objects dropped after 0..3 elements). Reference: enumeration over the pre-query store contents (all stored tracks != candidate, compatible, Ready when only_baked, one element per observation pair with a metric value; (from,to,class) errors when a class is missing). Schedules: small scenarios (<= 3 shards x <= 2 candidates) are driven through EVERY order of worker commands (and for owned queries every position of the caller's step) by gate scripts at the guarded schedule points; larger ones run under seeded random delay plans. Non-trivial: reference multiset has >= 2 results from >= 2 shards; distinct by scenario hash."));
     rep.note("assumptions", json!(["commands of one worker are executed in submission order (crossbeam FIFO)", "a gate script that cannot make progress for 10 s is abandoned and the run counted as stalled (never a violation)"]));
     let env = Env { plan: FaultPlan::new(), notif: CountingNotifier::default() };
     let ctl = Controller::install();
@@ -227,7 +242,10 @@ fn main() {
             "candidates": if sc.owned { json!(sc.owned_ids) } else { json!(sc.foreign.iter().map(|s| format!("{:?}", s)).collect::<Vec<_>>()) }});
         // 1. plain run (recorded)
         ctl.set_mode(Mode::Record);
-        let (out, before, cands) = run_query(&env, &sc);
+        let (out, before, cands) = run_query(&env, &sc, true);
+        if sc.abandon_after.is_some() {
+            rep.count("scenarios_with_an_abandoned_query_first");
+        }
         let (ev, _) = ctl.finish();
         rep.seen("order_signatures", order_signature(&ev, "store.cmd.begin"));
         let mut good = judge(&mut rep, idx, &sc, &out, &before, &cands, "free", &ctx);
@@ -247,7 +265,8 @@ fn main() {
             rep.count("scenarios_with_all_scripts");
             for script in scripts {
                 ctl.set_mode(Mode::Gate { script: script.clone() });
-                let (o2, b2, c2) = run_query(&env, &sc);
+                // (gate scripts account for the commands of exactly one query)
+                let (o2, b2, c2) = run_query(&env, &sc, false);
                 let consumed = ctl.script_consumed();
                 let (ev, stalled) = ctl.finish();
                 rep.count("gated_executions");
@@ -275,7 +294,7 @@ fn main() {
         } else if good {
             for k in 0..(if cli.thorough() { 6 } else { 3 }) {
                 ctl.set_mode(Mode::Delay { seed: rng.u64() ^ k, intensity: 60, max_sleep_us: 400 });
-                let (o2, b2, c2) = run_query(&env, &sc);
+                let (o2, b2, c2) = run_query(&env, &sc, true);
                 let (ev, _) = ctl.finish();
                 rep.count("delayed_executions");
                 rep.seen("order_signatures", order_signature(&ev, "store.cmd.begin"));
